@@ -107,6 +107,29 @@ def searchAlt (db : Hdr.UDB) (patterns : List Str) (line : Str) : Option Unit :=
 /-- `match.group(1) is None` for the Content-Type regex: group 1 is the optional `text/plain; ` prefix -/
 def ctGroup1 (m : Bool × Str) : Option Unit := if m.1 then some () else none
 
+/-! ### `check_headers` -/
+
+/-- the entries of `ctx.file` with their positions: the entries are distinct objects, so `entry is ctx.file[0]` is "position 0" -/
+def enumerateFrom {α : Type} : Nat → List α → List (Nat × α)
+  | _, [] => []
+  | i, x :: xs => (i, x) :: enumerateFrom (i + 1) xs
+
+def enumerate {α : Type} (xs : List α) : List (Nat × α) := enumerateFrom 0 xs
+
+/-- `sorted(collections.Counter(xs).items())`: the distinct members in order, each with its multiplicity -/
+def counterItems (xs : List Str) : List (Str × Int) := (Date.sortedSet xs).map fun f => (f, ((Hdr.count f xs : Nat) : Int))
+
+/-- `sorted(d.items())` for a dict keyed by str: the keys are distinct, so the order is that of the keys -/
+def sortedItems {ν : Type} [Inhabited ν] (d : List (Str × ν)) : List (Str × ν) :=
+  (Date.sortedSet (d.map (·.1))).map fun k => (k, ddGet d k)
+
+/-- `encinfo.get_character_name(ch)` on the code points `find_unusual_characters` can report (names regenerated from the running
+    interpreter); `ValueError` where `unicodedata.name` has no name -/
+def charName (c : Char) : Except Py.Exc Str :=
+  match Hdr.charName c with
+  | some n => .ok n
+  | none => .error .ValueError
+
 /-! ### the charset fragment of `check_mime`: `lib.encodings` / `lib.ling` calls, in terms of C20's model (`Charset.Env` = what the fragment
 needs to know about the codecs; strings cross as `Hdr.toName` / `Hdr.ofName`) -/
 
